@@ -281,6 +281,98 @@ fn check_rb(c: &RbCase) -> CheckResult {
 
 /// exhaustive stage: every Periodic / Sporadic / small delta-min curve with tiny parameters, plain,
 /// jittered and summed with a periodic stream - steps vs. brute force up to a fixed horizon
+/// One `arrival::Curve` object driven through a generated history of queries and in-place
+/// extensions: after EVERY operation its steps must be exactly the increase points of its
+/// (current) number_arrivals - whatever was iterated, queried or cloned before.
+#[derive(Clone, Debug, Serialize, Deserialize)]
+pub enum CurveOp {
+    /// pull this many steps from a fresh iterator (and drop it)
+    Steps(usize),
+    Query(u64),
+    Extrapolate(u64),
+    ExtrapolateSteps(usize),
+    /// continue with a clone of the object
+    Clone,
+    /// look at the steps of a jittered clone (the object itself stays)
+    JitterProbe(u64),
+}
+
+#[derive(Clone, Debug, Serialize, Deserialize)]
+pub struct CurveHistCase {
+    pub dmin: Vec<u64>,
+    pub ops: Vec<CurveOp>,
+}
+
+fn curve_hist_strategy(tier: Tier) -> BoxedStrategy<CurveHistCase> {
+    let tmax = tier.pick(20, 40);
+    let op = prop_oneof![
+        3 => (1usize..12).prop_map(CurveOp::Steps),
+        1 => (0u64..200).prop_map(CurveOp::Query),
+        3 => (1u64..250).prop_map(CurveOp::Extrapolate),
+        2 => (1usize..14).prop_map(CurveOp::ExtrapolateSteps),
+        1 => Just(CurveOp::Clone),
+        1 => (0u64..40).prop_map(CurveOp::JitterProbe),
+    ];
+    (dmin_strategy(6, tmax, true), proptest::collection::vec(op, 1..8))
+        .prop_map(|(dmin, ops)| CurveHistCase { dmin, ops })
+        .boxed()
+}
+
+fn steps_match(ab: &dyn response_time_analysis::arrival::ArrivalBound, h: u64, what: &str) -> Result<usize, String> {
+    let vals: Vec<u64> = guard(|| (0..=h).map(|x| ab.number_arrivals(d(x)) as u64).collect::<Vec<_>>())
+        .map_err(|e| format!("{}: number_arrivals panicked: {}", what, e))?;
+    let got = guard(|| pull_steps(ab.steps_iter(), h)).map_err(|e| format!("{}: steps_iter panicked: {}", what, e))?;
+    compare_steps(&got, &vals, h).map_err(|m| format!("{}: {}", what, m))?;
+    Ok(got.len())
+}
+
+fn check_curve_hist(c: &CurveHistCase) -> CheckResult {
+    use response_time_analysis::arrival::{ArrivalBound, Curve};
+    let mut out = Outcome::default();
+    let mut cur = Curve::new(c.dmin.iter().map(|x| d(*x)).collect());
+    let h = 320u64;
+    let mut iterated = false;
+    let mut grown_after_iter = false;
+    for (i, op) in c.ops.iter().enumerate() {
+        let before = format!("{:?}", cur).len();
+        let what = format!("delta-min prefix {:?} after operations {:?}", c.dmin, &c.ops[..=i]);
+        match op {
+            CurveOp::Steps(n) => {
+                let n = *n;
+                guard(|| cur.steps_iter().take(n).count()).map_err(|e| format!("{}: steps_iter panicked: {}", what, e))?;
+                iterated = true;
+            }
+            CurveOp::Query(x) => {
+                let x = *x;
+                guard(|| cur.number_arrivals(d(x))).map_err(|e| format!("{}: number_arrivals panicked: {}", what, e))?;
+            }
+            CurveOp::Extrapolate(hz) => {
+                let hz = *hz;
+                guard_with_budget(2_000_000, || cur.extrapolate(d(hz))).map_err(|e| format!("{}: extrapolate did not return: {}", what, e))?;
+            }
+            CurveOp::ExtrapolateSteps(n) => {
+                let n = *n;
+                guard_with_budget(2_000_000, || cur.extrapolate_steps(n)).map_err(|e| format!("{}: extrapolate_steps did not return: {}", what, e))?;
+            }
+            CurveOp::Clone => cur = cur.clone(),
+            CurveOp::JitterProbe(j) => {
+                let jc = cur.clone_with_jitter(d(*j));
+                steps_match(jc.as_ref(), h, &format!("jittered clone (+{}) of {}", j, what))?;
+            }
+        }
+        if iterated && format!("{:?}", cur).len() > before {
+            grown_after_iter = true;
+        }
+        steps_match(&cur, h, &what)?;
+        out.inner += 1;
+    }
+    out.nontrivial = grown_after_iter;
+    out.label_if(grown_after_iter, "extended-after-iteration");
+    out.label_if(c.ops.iter().any(|o| matches!(o, CurveOp::Clone)), "clone");
+    out.label_if(c.ops.iter().any(|o| matches!(o, CurveOp::JitterProbe(_))), "jitter-probe");
+    Ok(out)
+}
+
 fn exhaustive(tier: Tier, _seed: u64) -> ExtraResult {
     let mut r = ExtraResult { exhaustive: true, replay_subcheck: "arrival", ..Default::default() };
     let (tmax, jmax, emax) = tier.pick((9u64, 24u64, 5u64), (14u64, 45u64, 7u64));
@@ -349,7 +441,7 @@ fn exhaustive(tier: Tier, _seed: u64) -> ExtraResult {
 pub fn def() -> PropertyDef {
     PropertyDef {
         id: "C11",
-        rule: "generated: every ArrivalBound spec (Periodic, Sporadic with J up to 4T, plain/extrapolating curves incl. plateau-ended and non-super-additive prefixes, Never, jittered clones, Propagated, sum_of/Vec/slice, derived curves via from_arrival_bound(_until)/From<Periodic|Sporadic|ArrivalCurvePrefix>, ArrivalCurvePrefix direct and derived; depth <= 3) with a horizon of several prefix repetitions, and request bounds (RBF / Aggregate / Slice / nested boxed aggregates) over 1-4 (arrival, positive cost model) components; oracle: the sequence yielded by steps_iter up to H must equal {delta in [1,H] : f(delta-1) < f(delta)} computed by brute force from number_arrivals / service_needed, be strictly increasing and free of 0, be reproducible by a second iterator; demand::step_offsets = steps - 1. Non-trivial: >= 3 steps within H and (jitter, burst, nesting) resp. >= 2 components. Inputs whose construction / number_arrivals itself fails are skipped here (that is C12 / C20). Known finding matched by signature: a direct ArrivalCurvePrefix yields one leading 0 and is otherwise exact.".into(),
+        rule: "generated: every ArrivalBound spec (Periodic, Sporadic with J up to 4T, plain/extrapolating curves incl. plateau-ended and non-super-additive prefixes, Never, jittered clones, Propagated, sum_of/Vec/slice, derived curves via from_arrival_bound(_until)/From<Periodic|Sporadic|ArrivalCurvePrefix>, ArrivalCurvePrefix direct and derived; depth <= 3) with a horizon of several prefix repetitions, and request bounds (RBF / Aggregate / Slice / nested boxed aggregates) over 1-4 (arrival, positive cost model) components; oracle: the sequence yielded by steps_iter up to H must equal {delta in [1,H] : f(delta-1) < f(delta)} computed by brute force from number_arrivals / service_needed, be strictly increasing and free of 0, be reproducible by a second iterator; demand::step_offsets = steps - 1. Non-trivial: >= 3 steps within H and (jitter, burst, nesting) resp. >= 2 components. Inputs whose construction / number_arrivals itself fails are skipped here (that is C12 / C20). Known finding matched by signature: a direct ArrivalCurvePrefix yields one leading 0 and is otherwise exact. Sub-check curve-history: one arrival::Curve object (super-additive prefix of 1-6 entries, plateaus allowed) is driven through a generated history of 1-7 operations (pull k steps from an iterator, number_arrivals query, extrapolate(h), extrapolate_steps(n), continue with a clone, look at a jittered clone); after every operation the steps of the object (and of the jittered clone) up to 320 must be exactly the increase points of its current number_arrivals, so nothing computed for an earlier state of the object may survive an extension (non-trivial: the prefix grew after an iterator had been used).".into(),
         assumptions: vec![
             "every job cost is positive (stated in the property for request bounds)".into(),
             "delta-min prefixes end with a positive distance; ArrivalCurvePrefix horizon >= 1 and steps realisable (first step at delta = 1)".into(),
@@ -357,6 +449,7 @@ pub fn def() -> PropertyDef {
         subchecks: vec![
             subcheck("arrival", (12_000, 200_000), arr_case_strategy, check_arr).with_decoder(decode_arr_case, check_arr),
             subcheck("request-bound", (4000, 80_000), rb_case_strategy, check_rb),
+            subcheck("curve-history", (3000, 60_000), curve_hist_strategy, check_curve_hist),
         ],
         extra: Some(Box::new(exhaustive)),
     }
